@@ -86,6 +86,21 @@ CLAIMS = {
                      "applied edits are pairwise disjoint, a conflicting edit is absent entirely; for all positions/lengths/texts "
                      "within <=3 patches x <=2 variants (quick) / <=4 patches (thorough).",
                 note="Patch stream contract as in C10. The legacy un-merged route (LintedFile.source_patches is None) is outside the claim."),
+    "C20": dict(design_ref="§3 C20", technique=SYM,
+                text="Real IgnoreMask.ignore_masked_violations / _should_ignore_violation_line_range / generate_warnings_for_unused over "
+                     "<=2 directives x <=2 violations (thorough 3x2, 2x3) with UNBOUNDED symbolic line numbers, every action (plain/"
+                     "disable/enable), rule set (all/{A}/{B}/{A,B}) and code (A/B/PRS): a violation is hidden iff a plain directive on "
+                     "its line covers it or the most recent covering range directive at or before its line is a disable; unused "
+                     "warnings exactly for plain/disable directives that hid nothing; with no mask nothing is hidden.",
+                note="Reference model written independently in the harness. _parse_noqa's string parsing and which comments the tree "
+                     "crawl yields are outside (CrossHair on _parse_noqa was probed in the design phase but is not part of this check)."),
+    "C21": dict(design_ref="§3 C21", technique=SYM + " (finite configuration space enumerated through solver-decided forks)",
+                text="Real RuleSet.get_rulepack/_expand_rule_refs/rule_reference_map over a register of 3 stub rules with forked names, "
+                     "groups and aliases (incl. code/name, name/group and group/alias collisions) and <=1 (thorough 2) allow and deny "
+                     "selectors (codes, names, groups, aliases, globs, unknown): instantiated codes == (union of matched allow) minus "
+                     "(union of matched deny) under precedence code > name > group > alias. Independence: lint_fix_parsed(fix=False) hands "
+                     "every enabled rule the identical tree and reports the concatenation of their violations for all 8 subsets.",
+                note="That a crawl does not mutate the tree is assumed, not checked; comma-separated value splitting is outside."),
     "C23": dict(design_ref="§3 C23", technique=SYM,
                 text="Bounded model checking of the real position kernel (newline scan, bisect table, source_position_dict_from_slice, "
                      "PositionMarker, SQLBaseError/SQLLintError/SQLParseError.to_dict, LintFix.to_dict incl. all edit types and the "
@@ -111,6 +126,6 @@ NOT_APPLICABLE = {
     "C16": "oracle is SQLite executing the query before/after; no solver model of SQL semantics is within reach",
     "C17": "fixpoint of the whole rule set over arbitrary SQL; not encodable",
 }
-for _p in ["C04", "C05", "C06", "C15", "C18", "C19", "C20", "C21", "C22",
+for _p in ["C04", "C05", "C06", "C15", "C18", "C19", "C22",
            "C24", "C25", "C26", "C27", "C28", "C32", "C34"]:
     NOT_APPLICABLE.setdefault(_p, "check not built yet (planned, see DESIGN.md §3); not claimed until its harness is committed")
